@@ -68,7 +68,14 @@ class UGrammar(Grammar, ABC, Generic[U, V, W]):
         return out
 
     def __hash__(self) -> int:
-        return hash((tuple(self.starts), str(self.rules)))
+        return hash((frozenset(self.starts), frozenset(self.rules)))
+
+    def __eq__(self, o: object) -> bool:
+        return (
+            type(o) is type(self)
+            and self.starts == o.starts  # type: ignore
+            and self.rules == o.rules
+        )
 
     def __rule_to_str__(self, P: DerivableProgram, out: V) -> str:
         return "{}: {}".format(P, out)
